@@ -17,6 +17,7 @@ import (
 	"strings"
 	"sync"
 	"sync/atomic"
+	"time"
 
 	"github.com/facebookincubator/dns/dnsrocks/dnsserver"
 	"github.com/miekg/dns"
@@ -92,13 +93,14 @@ type counters struct {
 	hits, noResponse, unexpectedRcode         int64
 	ecsQueries, matchedSubnet, defaultScope   int64
 	locJudged, locNonEmpty                    int64
-	dbs                                       int64
+	dbs, handlers                             int64
 }
 
 type observed struct {
 	panicked   interface{}
 	noResponse bool
 	packErr    error
+	wireErr    error // the packed response is rejected by dns.Msg.Unpack
 	rcode      int
 	opt        *dns.OPT
 	ecs        []*dns.EDNS0_SUBNET
@@ -124,9 +126,10 @@ func observe(res dnsfix.Result) observed {
 	}
 	m := new(dns.Msg)
 	if err := m.Unpack(b); err != nil {
-		o.packErr = fmt.Errorf("packed response does not unpack: %w", err)
-		o.canon = dnsfix.Canon(res.Msgs[0])
-		return o
+		// The bytes on the wire are rejected by a (miekg) client. Judge the
+		// message the handler wrote, and remember the rejection.
+		o.wireErr = err
+		m = res.Msgs[0]
 	}
 	o.rcode = m.Rcode
 	o.opt = m.IsEdns0()
@@ -208,6 +211,15 @@ func judge(q *query, e expectation, o observed) []verdict {
 			}
 		}
 	}
+	if o.wireErr != nil {
+		if len(v) == 0 {
+			v = append(v, verdict{kUnpackable, "", fmt.Sprintf("the packed response is rejected by dns.Msg.Unpack: %v", o.wireErr)})
+		} else {
+			for i := range v {
+				v[i].text += fmt.Sprintf(" (a miekg client rejects the packed response: %v)", o.wireErr)
+			}
+		}
+	}
 	if e.judgeLoc && o.rcode == dns.RcodeSuccess {
 		want := expectedAnswer(e.loc)
 		if strings.Join(want, ",") != strings.Join(o.answers, ",") {
@@ -260,13 +272,32 @@ func serve(h *dnsfix.Handler, q *query, wire []byte) dnsfix.Result {
 	return h.Serve(m, q.resolver, false, maxAnswers)
 }
 
-func runUnit(r *vlib.Run, dir string, u unit, queries []*query, wires [][]byte, cnt *counters) []*finding {
+// runPair compiles one configuration for one backend and runs it with the
+// cache off and then on (two handlers, one after the other, on one database).
+func runPair(r *vlib.Run, dir string, u unit, queries []*query, wires [][]byte, cnt *counters) []*finding {
+	t0 := time.Now()
 	text := u.cfg.text()
 	path, err := dnsfix.Compile(dir, u.backend, []byte(text))
 	if err != nil {
 		vlib.Infra("configuration %s does not compile for %s: %v", u.cfg.id, u.backend, err)
 	}
 	defer os.RemoveAll(path)
+	atomic.AddInt64(&cnt.dbs, 1)
+	if os.Getenv("C10_TIMING") != "" { // debugging aid; no effect on coverage or verdicts
+		fmt.Fprintf(os.Stderr, "unit %s %s: compiled after %v\n", u.cfg.id, u.backend, time.Since(t0))
+	}
+	var out []*finding
+	for _, cache := range []bool{false, true} {
+		u.cache = cache
+		out = append(out, runUnit(r, path, text, u, queries, wires, cnt)...)
+	}
+	if os.Getenv("C10_TIMING") != "" {
+		fmt.Fprintf(os.Stderr, "unit %s %s: done after %v\n", u.cfg.id, u.backend, time.Since(t0))
+	}
+	return out
+}
+
+func runUnit(r *vlib.Run, path, text string, u unit, queries []*query, wires [][]byte, cnt *counters) []*finding {
 	st := &countingStats{}
 	opts := dnsfix.HandlerOpts{Stats: st}
 	if u.cache {
@@ -277,7 +308,7 @@ func runUnit(r *vlib.Run, dir string, u unit, queries []*query, wires [][]byte, 
 		vlib.Infra("cannot open handler on %s (%s): %v", u.cfg.id, u.backend, err)
 	}
 	defer h.Close()
-	atomic.AddInt64(&cnt.dbs, 1)
+	atomic.AddInt64(&cnt.handlers, 1)
 
 	groups := map[string]*finding{}
 	var order []string
@@ -401,15 +432,13 @@ func main() {
 	var units []unit
 	for ci := range configs {
 		for _, b := range dnsfix.Backends {
-			for _, cache := range []bool{false, true} {
-				units = append(units, unit{cfg: &configs[ci], cfgOrd: ci, backend: b, cache: cache})
-			}
+			units = append(units, unit{cfg: &configs[ci], cfgOrd: ci, backend: b})
 		}
 	}
 	var cnt counters
 	results := make([][]*finding, len(units))
 	vlib.ParallelFor(len(units), func(i int) {
-		results[i] = runUnit(r, dir, units[i], queries, wires, &cnt)
+		results[i] = runPair(r, dir, units[i], queries, wires, &cnt)
 	})
 	clean()
 
@@ -468,7 +497,8 @@ func main() {
 	r.Set("configurations", len(configs))
 	r.Set("configuration_ids", strings.Join(cfgIDs, " "))
 	r.Set("backends", "cdb rdb-v1 rdb-v2")
-	r.Set("databases_opened", cnt.dbs)
+	r.Set("databases_compiled", cnt.dbs)
+	r.Set("handlers_opened", cnt.handlers)
 	r.Set("queries_per_database", len(queries))
 	r.Set("ecs_variants_v4", nv4)
 	r.Set("ecs_variants_v6", nv6)
